@@ -863,7 +863,7 @@ fn implementor_scan(c: &mut Ctx) {
 }
 
 pub fn run(c: &mut Ctx) {
-    c.note("rule", json!("library level: every proof type x N x group, builder challenge = proof challenge, every non-response atom (identified behaviourally, cross-checked against field names) and every atom of every other ChallengeInput type replaced by a different valid encoding; arbitrary byte strings and Context inputs of length 0..64 with every byte position flipped. zkAbacus level: every non-response atom of an EstablishProof / PayProof (prover run twice with identical randomness and different contexts), every public value, the key, the range parameters and context bytes, with the merchant's challenge read through the hook. Distinct = distinct (type, atom path)."));
+    c.note("rule", json!("library level: every proof type x N x group, builder challenge = proof challenge, every non-response atom (identified behaviourally, cross-checked against field names) and every atom of every other ChallengeInput type replaced by a different valid encoding; arbitrary byte strings and Context inputs of length 0..64 with every byte position flipped. zkAbacus level: every non-response atom of an EstablishProof / PayProof (prover run twice with identical randomness and different contexts), every public value, the key, the range parameters and context bytes, with the merchant's challenge read through the hook. Distinct = distinct (type, atom path). Added later: every parameter atom, related-context corpus, constructors. Negated points, small scalar sequences, call-history independence of the challenge."));
     let m = match fixtures::merchant(c.seed, "m0") {
         Ok(m) => m,
         Err(e) => return c.inconclusive(&e),
